@@ -53,6 +53,8 @@ class Model:
     def trigger(self, e, t0):
         """first time >= t0 at which the notification fires or already holds; NEVER if none"""
         k = e[0]
+        if k == 'C':
+            return self.trigger(self.program['conds'][e[1]], t0)
         if k == 'DELAY':
             return t0 + e[1]
         if k == 'GE':
@@ -67,7 +69,9 @@ class Model:
             return NEVER
         if k in ('AND', 'OR'):
             # connectives over time atoms: the first candidate moment >= t0 at which the expression holds
-            cands = sorted({t0} | {self.T(x[1]) for x in self.atoms(e) if self.T(x[1]) >= t0})
+            cands = sorted({t0} | {self.T(x[1]) for x in self.atoms(e) if x[0] != 'C' and self.T(x[1]) >= t0}
+                           | {self.T(self.program['conds'][x[1]][1]) for x in self.atoms(e)
+                              if x[0] == 'C' and self.T(self.program['conds'][x[1]][1]) >= t0})
             for t in cands:
                 if self.holds(e, t):
                     return t
@@ -86,6 +90,8 @@ class Model:
 
     def holds(self, e, t):
         k = e[0]
+        if k == 'C':
+            return self.holds(self.program['conds'][e[1]], t)
         if k == 'GE':
             return t >= self.T(e[1])
         if k == 'LT':
